@@ -135,6 +135,23 @@ func ZZ_C11_AckRateAfterEvent() {
 	}
 }
 
+// The same floor with the rate, RTT and factor on a concrete grid (so that the
+// floating-point part folds to a constant) and the datagram size symbolic: a
+// violating size, if there is one, is a plain integer model for the solver.
+//
+//verif:harness kind=api bound=bps∈{64KB/s,1MB/s,1GB/s},srtt∈{1ns,300µs,10ms},ackRate∈{0.8,1},datagram:any-in-[1200,65535]
+func ZZ_C11_WindowFloorAnyDatagramSize() {
+	b := NewBrutalSender([]uint64{65536, 1_000_000, 1_000_000_000}[verifChoice("bps", 3)], false)
+	rtt := &zzRTT{srtt: []time.Duration{1, 300 * time.Microsecond, 10 * time.Millisecond}[verifChoice("srtt", 3)]}
+	b.SetRTTStatsProvider(rtt)
+	b.SetMaxDatagramSize(congestion.ByteCount(verifInt64("mds", 1200, 65535)))
+	b.ackRate = []float64{0.8, 1}[verifChoice("rate", 2)]
+	w := b.GetCongestionWindow()
+	verifAssert(w >= b.maxDatagramSize, "window is at least one datagram of the current size")
+	verifAssert(b.CanSend(0), "an idle connection may always send")
+	verifCover("window")
+}
+
 // The congestion window is never below one datagram, whatever RTT and factor.
 //
 //verif:harness kind=api bound=ackRate∈[0.8,1],one-step-from-arbitrary-state
